@@ -22,6 +22,10 @@ class ConvergenceCriteria:
         self.compute_mc_paths = compute_mc_paths
 
 
+# split of the mean square error rmse^2 between the squared bias (THETA) and the variance (1 - THETA), as in Giles' papers
+THETA = 0.25
+
+
 def compute_mc_paths_giles(rmse: float, vl: np.array, cl: np.array) -> np.array:
     """Same as in Giles papers
     :param rmse: root-mean square error
@@ -29,13 +33,15 @@ def compute_mc_paths_giles(rmse: float, vl: np.array, cl: np.array) -> np.array:
     :param cl: cost of each level l
     :return: the updated number of Monte-Carlo paths for each level l
     """
-    theta = 0.25
-    cl_zerocost = cl.copy()
-    cl_zerocost[
-        cl_zerocost == 0
-    ] = 1e30  # to avoid potential division by 0 in the following line
+    theta = THETA
+    # a level without cost is given the smallest positive cost: this avoids the division by 0 and the allocation
+    # below keeps the variance sum(vl / Nl) under (1 - theta) * rmse^2 whatever the (positive) costs used in it
+    positive_costs = cl[cl > 0]
+    cl_positive = np.where(cl > 0, cl, positive_costs.min() if positive_costs.size else 1.0)
     return np.ceil(
-        np.sqrt(vl / cl_zerocost) * np.sum(np.sqrt(vl * cl)) / ((1 - theta) * rmse**2)
+        np.sqrt(vl / cl_positive)
+        * np.sum(np.sqrt(vl * cl_positive))
+        / ((1 - theta) * rmse**2)
     ).astype(int)
 
 
@@ -48,7 +54,7 @@ def criteria_giles(alpha: float, ml: np.array, rmse: float) -> bool:
     :return: true if the convergence criteria has been met
     """
     rem = max(ml[-1], ml[-2] / 2**alpha, ml[-3] / 2 ** (2 * alpha)) / (2**alpha - 1)
-    return rem <= rmse / np.sqrt(2)
+    return rem <= np.sqrt(THETA) * rmse
 
 
 def criteria_run_to_maximum_level(alpha: float, ml: np.array, rmse: float) -> bool:
